@@ -3,7 +3,7 @@
     returns exactly the retained items of the interval; on every well-formed directory both searches are
     exact / a prefix not cut short; with the last file torn by a crash both searches return what the
     completely written part prescribes plus at most one item read from the torn line. *)
-From SV Require Import Model.Base Model.MetricLine Model.MetricLog Spec.C19Inv Spec.C19Search Proofs.C19Proofs Spec.C19Crash Proofs.C19SearchProofs Proofs.C19GoodProofs Proofs.C19CrashProofs.
+From SV Require Import Model.Base Model.MetricLine Model.MetricLog Spec.C19Inv Spec.C19Search Proofs.C19Proofs Spec.C19Crash Spec.C19CrashPoint Proofs.C19SearchProofs Proofs.C19GoodProofs Proofs.C19CrashProofs Proofs.C19CrashPointProofs.
 Open Scope N_scope.
 
 (** whatever is written, at any timestamps, with any limits: every file in the directory is the
@@ -43,9 +43,7 @@ Theorem C19_find_by_time_exact : forall fs begin_ms end_ms res,
   find_by_time (map conc fs) begin_ms end_ms res = expected_by_time fs (begin_ms / 1000) (end_ms / 1000) res.
 Proof. exact c19_find_by_time_exact. Qed.
 
-(** what is written: timestamps and items printable, names without line feed *)
-Definition ws_ok (ws : list (N * list mitem)) : Prop :=
-  Forall (fun x => fst x <= U64_MAX /\ Forall (fun i => item_wf (with_ts (fst x) i) /\ name_ok i) (snd x)) ws.
+(** [ws_ok] (Spec/C19CrashPoint.v): what is written has timestamps and items printable, names without line feed *)
 
 (** every directory the writer leaves behind is well formed (files in listing order, index entries right,
     seconds never decreasing along the directory) as long as no file reaches 2^64 bytes ... *)
@@ -104,3 +102,57 @@ Theorem C19_search_max_lines_after_crash : forall fs day no t begin_ms max,
                     find_max_lines (map conc fs ++ [torn_file day no t]) begin_ms max = out ++ extra
     end.
 Proof. exact c19_search_max_lines_after_crash2. Qed.
+
+(** a crash at ANY byte of what one write issues (the 16 index bytes of a new second first, then the lines), after
+    any history: the directory left behind is a torn directory in the sense above; nothing written earlier is lost,
+    and of the new items exactly those whose lines were issued completely are there ... *)
+Theorem C19_crash_point_is_torn : forall now max_size max_files w0 ws ts items k d,
+  writer_new now max_size max_files = Some w0 -> ws_ok (ws ++ [(ts, items)]) ->
+  Forall (fun f => N.of_nat (length (f_log f)) < U64) (w_dir (fst (mwrite (after_writes w0 ws) ts items))) ->
+  crash k (w_dir (after_writes w0 ws)) (w_dir (fst (mwrite (after_writes w0 ws) ts items))) = Some d ->
+  exists fs0 fs day no t n',
+    good_dir fs0 /\ sorted_files (w_dir (after_writes w0 ws)) = map conc fs0 /\
+    sorted_files d = map conc fs ++ [torn_file day no t] /\
+    torn_ok2 t /\ Forall name_ok (t_items t) /\ good_dir (fs ++ [cut_file day no t]) /\
+    flat_map a_items (fs ++ [cut_file day no t]) =
+      flat_map a_items fs0 ++ firstn n' (map (with_ts ts) items) /\
+    n' = complete_lines (map (with_ts ts) items)
+           (N.to_nat (k - (if w_latest (after_writes w0 ws) <? ts / 1000 then 16 else 0))).
+Proof. exact c19_crash_point_is_torn. Qed.
+
+(** ... and a search by time on it returns exactly what that completely written part prescribes, plus at most
+    one item read from the torn line; it never fails *)
+Theorem C19_search_by_time_after_crash_point : forall now max_size max_files w0 ws ts items k d,
+  writer_new now max_size max_files = Some w0 -> ws_ok (ws ++ [(ts, items)]) ->
+  Forall (fun f => N.of_nat (length (f_log f)) < U64) (w_dir (fst (mwrite (after_writes w0 ws) ts items))) ->
+  crash k (w_dir (after_writes w0 ws)) (w_dir (fst (mwrite (after_writes w0 ws) ts items))) = Some d ->
+  exists fs0 fs day no t n',
+    good_dir fs0 /\ sorted_files (w_dir (after_writes w0 ws)) = map conc fs0 /\
+    good_dir (fs ++ [cut_file day no t]) /\
+    flat_map a_items (fs ++ [cut_file day no t]) =
+      flat_map a_items fs0 ++ firstn n' (map (with_ts ts) items) /\
+    n' = complete_lines (map (with_ts ts) items)
+           (N.to_nat (k - (if w_latest (after_writes w0 ws) <? ts / 1000 then 16 else 0))) /\
+    forall begin_ms end_ms res, exists extra, (length extra <= 1)%nat /\
+      find_by_time d begin_ms end_ms res =
+      expected_by_time (fs ++ [cut_file day no t]) (begin_ms / 1000) (end_ms / 1000) res ++ extra.
+Proof. exact c19_search_by_time_after_crash_point. Qed.
+
+(** ... and so does the search with a line limit *)
+Theorem C19_search_max_lines_after_crash_point : forall now max_size max_files w0 ws ts items k d,
+  writer_new now max_size max_files = Some w0 -> ws_ok (ws ++ [(ts, items)]) ->
+  Forall (fun f => N.of_nat (length (f_log f)) < U64) (w_dir (fst (mwrite (after_writes w0 ws) ts items))) ->
+  crash k (w_dir (after_writes w0 ws)) (w_dir (fst (mwrite (after_writes w0 ws) ts items))) = Some d ->
+  exists fs0 fs day no t n',
+    good_dir fs0 /\ sorted_files (w_dir (after_writes w0 ws)) = map conc fs0 /\
+    good_dir (fs ++ [cut_file day no t]) /\
+    flat_map a_items (fs ++ [cut_file day no t]) =
+      flat_map a_items fs0 ++ firstn n' (map (with_ts ts) items) /\
+    n' = complete_lines (map (with_ts ts) items)
+           (N.to_nat (k - (if w_latest (after_writes w0 ws) <? ts / 1000 then 16 else 0))) /\
+    forall begin_ms max, exists extra, (length extra <= 1)%nat /\
+      match from_first_entry (fs ++ [cut_file day no t]) (begin_ms / 1000) with
+      | None => find_max_lines d begin_ms max = extra
+      | Some items' => exists out, max_ok items' max out /\ find_max_lines d begin_ms max = out ++ extra
+      end.
+Proof. exact c19_search_max_lines_after_crash_point. Qed.
